@@ -61,6 +61,38 @@ pub fn header_by_idx(i: usize) -> HResult<MHeader> {
     header_palette().get(i).cloned().ok_or_else(|| crate::trace::HarnessError(format!("header palette index {} out of range", i)))
 }
 
+/// A value argument is either a palette index (int) or the harness CBOR encoding of the value.
+pub fn value_from_arg(step: &Step, i: usize) -> HResult<MValue> {
+    match step.args.get(i) {
+        Some(Arg::I(_)) => value_by_idx(step.usize(i)?),
+        Some(Arg::B(b)) => {
+            let it = crate::refcbor::read_exact(b).map_err(|e| crate::trace::HarnessError(format!("value argument is not CBOR: {:?}", e)))?;
+            Ok(MValue::from_item(&it))
+        }
+        other => herr(format!("step {}: arg {} should be a value, got {:?}", step.name, i, other)),
+    }
+}
+
+/// Seeded value of arbitrary shape (scalars of every kind, short arrays and maps, tags).
+pub fn gen_any_value(rng: &mut Rng, depth: usize) -> MValue {
+    let k = if depth >= 3 { rng.below(7) } else { rng.below(10) };
+    match k {
+        0 => MValue::Int((rng.next_u64() as i64 >> rng.below(64)) as i128),
+        1 => {
+            let n = *rng.pick(&[0usize, 1, 2, 8, 16, 32, 33, 64, 300]);
+            MValue::Bytes(rng.bytes(n))
+        }
+        2 => MValue::Text(["", "a", "x5chain", "text/plain", "é"][rng.below(5)].to_string()),
+        3 => MValue::Bool(rng.bool()),
+        4 => MValue::Null,
+        5 => MValue::Int(rng.below(25) as i128 - 5),
+        6 => MValue::Float([0.0f64, 1.5, -2.25, 1e300][rng.below(4)].to_bits()),
+        7 => MValue::Array((0..rng.below(4)).map(|_| gen_any_value(rng, depth + 1)).collect()),
+        8 => MValue::Map((0..rng.below(3)).map(|i| (MValue::Int(i as i128), gen_any_value(rng, depth + 1))).collect()),
+        _ => MValue::Tag(*rng.pick(&[0u64, 1, 2, 24, 32, 37, 55799]), Box::new(gen_any_value(rng, depth + 1))),
+    }
+}
+
 pub fn value_by_idx(i: usize) -> HResult<MValue> {
     value_palette().get(i).cloned().ok_or_else(|| crate::trace::HarnessError(format!("value palette index {} out of range", i)))
 }
